@@ -137,3 +137,131 @@ func (h H) servePrologue(rule string) {
 		}
 	})
 }
+
+// openStorageLoads (C05.7 / C10.9 / C20.4): what was persisted is what a
+// restarted node starts from. On every path on which openStorage succeeds it
+// has loaded identity (cid, nid) from the identity value file, (term,
+// votedFor) from the term value file, and the last index/term from the
+// snapshot and — when the log is not empty — from the last log entry. A load
+// that is skipped leaves the zero value: a forgotten vote or term.
+func (h H) openStorageLoads(rule string, which ...string) {
+	fn := h.fn("raft:openStorage")
+	fi := h.P.Info(fn)
+	// success returns: error result is the nil constant
+	var succ []*ssa.Return
+	for _, r := range core.Returns(fn) {
+		if isNilConst(retOperand(r, 1)) || h.retVal(r, 1).String() == "nil" {
+			succ = append(succ, r)
+		}
+	}
+	if !h.C.Check(rule+" success-returns", "openStorage", len(succ) >= 1, h.fpos(fn), "no successful return found") {
+		return
+	}
+	type want struct {
+		field, valSuffix, valPrefix string
+	}
+	table := map[string][]want{
+		"identity": {{".cid", ".idVal)#0", "(*value).get("}, {".nid", ".idVal)#1", "(*value).get("}},
+		"term":     {{".term", ".termVal)#0", "(*value).get("}, {".votedFor", ".termVal)#1", "(*value).get("}},
+		"last":     {{".lastLogIndex", ".snaps.index", ""}, {".lastLogTerm", ".snaps.term", ""}},
+	}
+	for _, w := range which {
+		for _, t := range table[w] {
+			var hits []ssa.Instruction
+			core.Instrs(fn, func(in ssa.Instruction) {
+				st, ok := in.(*ssa.Store)
+				if !ok {
+					return
+				}
+				a, v := fi.Sym(st.Addr).String(), fi.Sym(st.Val).String()
+				if strings.HasSuffix(a, t.field) && !strings.Contains(strings.TrimSuffix(a, t.field), ".") && strings.HasSuffix(v, t.valSuffix) && strings.HasPrefix(v, t.valPrefix) {
+					hits = append(hits, in)
+				}
+				// latestIndex()/latest() accessor forms of the snapshot label
+				if w == "last" && strings.HasSuffix(a, t.field) && strings.HasPrefix(v, "(*snapshots).latest") {
+					hits = append(hits, in)
+				}
+			})
+			ok := len(hits) > 0
+			for _, r := range succ {
+				dom := false
+				for _, s := range hits {
+					if core.Dominates(s, r) {
+						dom = true
+					}
+				}
+				if !dom {
+					ok = false
+				}
+			}
+			h.C.Check(rule+" loaded-before-success", "openStorage storage"+t.field, ok, h.fpos(fn), "openStorage can succeed without loading storage"+t.field+" from what was persisted ("+t.valPrefix+"…"+t.valSuffix+")")
+		}
+		if w == "last" {
+			// and from the last log entry when there is one
+			n := 0
+			core.Instrs(fn, func(in ssa.Instruction) {
+				st, ok := in.(*ssa.Store)
+				if !ok {
+					return
+				}
+				a, v := fi.Sym(st.Addr).String(), fi.Sym(st.Val).String()
+				if (strings.HasSuffix(a, ".lastLogIndex") && strings.HasSuffix(v, ".index") || strings.HasSuffix(a, ".lastLogTerm") && strings.HasSuffix(v, ".term")) && strings.HasPrefix(v, "new:entry") {
+					n++
+				}
+			})
+			h.C.Check(rule+" last-entry-adopted", "openStorage last entry", n == 2, h.fpos(fn), fmt.Sprintf("a non-empty log's last entry must give lastLogIndex and lastLogTerm (found %d of 2 stores)", n))
+			for k, r := range succ {
+				res := fi.MustCrossOrPass(r, func(a core.Atom) bool {
+					return a.Op == "<=" && strings.HasPrefix(a.L, "(*log.Log).Count(") && a.R == "0" || a.Op == "==" && strings.HasPrefix(a.L, "(*log.Log).Count(") && a.R == "0"
+				}, nil, func(in ssa.Instruction) bool {
+					st, ok := in.(*ssa.Store)
+					return ok && strings.HasSuffix(fi.Sym(st.Addr).String(), ".lastLogIndex") && strings.HasPrefix(fi.Sym(st.Val).String(), "new:entry")
+				})
+				h.C.Check(rule+" last-entry-adopted", fmt.Sprintf("openStorage success-return#%d", k+1), res.OK, h.pos(r), "openStorage succeeds with a non-empty log whose last entry was not adopted as the node's last index: "+res.Witness)
+			}
+		}
+	}
+}
+
+// settersSkipJustified (C05.8): setTerm / setVotedFor leave the value file
+// alone only when nothing would change.
+func (h H) settersSkipJustified(rule string) {
+	set := h.fn("raft:(*value).set")
+	for _, s := range []struct {
+		spec  string
+		atoms []core.Atom
+	}{
+		{"raft:(*storage).setTerm", []core.Atom{core.MkAtom("storage.term", "==", "$1")}},
+		{"raft:(*storage).setVotedFor", []core.Atom{core.MkAtom("$1", "==", "storage.term"), core.MkAtom("$2", "==", "storage.votedFor")}},
+	} {
+		fn := h.fn(s.spec)
+		fi := h.P.Info(fn)
+		// the persist step: value.set, or the test hook that stands in front of
+		// it (its error panics; a nil result is followed by value.set)
+		persist := func(in ssa.Instruction) bool {
+			if h.P.IsCallTo(in, set) {
+				return true
+			}
+			if c, ok := in.(*ssa.Call); ok && strings.HasPrefix(fi.Sym(c.Common().Value).String(), "global:grantingVote") {
+				return true
+			}
+			return false
+		}
+		for k, r := range core.Returns(fn) {
+			passes := fi.MustCrossOrPass(r, func(core.Atom) bool { return false }, nil, persist).OK
+			if passes {
+				h.C.Check(rule, fmt.Sprintf("%s return#%d", h.name(fn), k+1), true, h.pos(r), "persists")
+				continue
+			}
+			ok := true
+			for _, a := range s.atoms {
+				want := a
+				res := fi.MustCrossOrPass(r, func(x core.Atom) bool { return x.Implies(want) }, nil, persist)
+				if !res.OK {
+					ok = false
+				}
+			}
+			h.C.Check(rule, fmt.Sprintf("%s return#%d", h.name(fn), k+1), ok, h.pos(r), "the setter can return without persisting although the requested (term, vote) differs from the stored pair")
+		}
+	}
+}
